@@ -48,6 +48,15 @@ func (ds *dataStore) getStoreKey(keyName string) (sk *storeKey, exists bool) {
 	return
 }
 
+// a key whose deadline has passed is as good as missing
+func (ds *dataStore) getLiveStoreKey(keyName string) (sk *storeKey, exists bool) {
+	sk, exists = ds.getStoreKey(keyName)
+	if exists && sk.isExpiredUnlocked() {
+		return nil, false
+	}
+	return
+}
+
 func (ds *dataStore) hasChangedUnlocked(keyName string, id uint64) bool {
 	sk, exists := ds.getStoreKey(keyName)
 	if !exists || sk.isExpiredUnlocked() {
@@ -69,13 +78,13 @@ func (ds *dataStore) newStoreKeyUnlocked(keyName string) *storeKey {
 
 // makes a full copy of a store key, optionally into a different data store
 func (ds *dataStore) copyStoreKeyUnlocked(srcKeyName, destKeyName string, dds *dataStore, overwrite bool) (newSk *storeKey, destExists bool) {
-	sk, exists := ds.getStoreKey(srcKeyName)
+	sk, exists := ds.getLiveStoreKey(srcKeyName)
 	if !exists {
 		return
 	}
 
 	if !overwrite {
-		_, destExists = dds.getStoreKey(destKeyName)
+		_, destExists = dds.getLiveStoreKey(destKeyName)
 		if destExists {
 			return
 		}
@@ -89,13 +98,13 @@ func (ds *dataStore) copyStoreKeyUnlocked(srcKeyName, destKeyName string, dds *d
 
 // moves a store key, optionally into a different data store
 func (ds *dataStore) moveStoreKeyUnlocked(srcKeyName, destKeyName string, dds *dataStore, overwrite bool) (newSk *storeKey, destExists bool) {
-	sk, exists := ds.getStoreKey(srcKeyName)
+	sk, exists := ds.getLiveStoreKey(srcKeyName)
 	if !exists {
 		return
 	}
 
 	if !overwrite {
-		_, destExists = dds.getStoreKey(destKeyName)
+		_, destExists = dds.getLiveStoreKey(destKeyName)
 		if destExists {
 			return
 		}
